@@ -62,7 +62,7 @@ Qed.
 
 (* ---------- exact per-block results are chunk independent ---------- *)
 Section Exact.
-  Variable key : Z -> Z -> Z.
+  Variable key : Z -> Z -> Z -> Z -> Z.
   Variables xc yc : list (option Z).
   Variable values : list xv.
   Variable img : list (list xv).
@@ -127,7 +127,7 @@ Definition rect (img : list (list xv)) : Prop :=
   forall r, 0 <= r < lenZ img -> lenZ (nthZ [] img r) = lenZ (nthZ [] img 0).
 
 Section Fallback.
-  Variable key : Z -> Z -> Z.
+  Variable key : Z -> Z -> Z -> Z -> Z.
   Variable tie_up : Z -> bool.
   Variables R M : ext.
   Variables xc yc : list (option Z).
